@@ -38,6 +38,18 @@ DEFCTX = [(["int", "f", "(", "int", "a", ")"], ["{", "}"]),
           (["int", "x", "=", "(", "int", ")"], [";"]),
           (["void", "f", "(", "void", ")", "{", "if", "(", "x", ")"], ["else", ";", "}"]),
           (["typedef", "int", "T", ";", "void", "f", "(", "T"], [")", "{", "}"])]
+# contexts that COMPLETE a specifier / type-name sequence (what has been collected is only examined once the
+# declaration, member or type name is finished)
+SPECCTX = [(["int", "y", "=", "("], [")", "1", ";"]),
+           (["int", "y", "=", "sizeof", "("], [")", ";"]),
+           (["struct", "S", "{"], ["x", ";", "}", ";"]),
+           (["struct", "S", "{"], ["x", ":", "1", ";", "}", ";"]),
+           (["void", "f", "("], ["x", ")", ";"]),
+           ([], ["x", ";"]),
+           (["_Alignas", "("], [")", "int", "x", ";"]),
+           (["int", "y", "=", "("], [")", "{", "1", "}", ";"]),
+           (["void", "f", "(", "void", ")", "{", "for", "("], ["x", "=", "1", ";", ";", ")", ";", "}"]),
+           (["typedef"], ["x", ";"])]
 CONTEXT_SETS = None   # filled below
 
 FOREIGN = ["@", "`", "\\", "/*", "//", "\n#define X 1\n", "\n#if 1\n", "\n#include <a.h>\n"]
@@ -52,6 +64,7 @@ REST = ["auto", "register", "extern", "_Thread_local", "_Noreturn", "restrict", 
         "-=", "<<=", ">>=", "&=", "|=", "0x1F", "0b1", "017", "1u", "1.f", "0x1p3", "L'a'", "u8\"x\"", "u'a'", "U\"x\""]
 SMALL = ["int", "T", "x", "(", ")", "{", "}", "[", "]", ";", ",", "*", "=", "1", "struct", "typedef"]
 SPECS = ["_Alignas", "_Atomic", "(", ")", "int", "1", ";", "x", "const", ":"]
+SPECS2 = ["_Atomic", "(", ")", "int", "T", "struct", "enum", "const", "*", "long"]
 
 
 def token_mutants(toks, alphabet, rnd, k):
@@ -94,7 +107,7 @@ def _mut_work(args):
     return n, bad
 
 
-CONTEXT_SETS = [CONTEXTS, DEFCTX]
+CONTEXT_SETS = [CONTEXTS, DEFCTX, SPECCTX]
 
 
 def text_of(seq, c, cs=0):
@@ -204,7 +217,11 @@ def run(tier):
         run_population(ctx, sq, "len<=5 specifier alphabet")
         sq = enumerate_seqs(ctx, "len<=4 over %d small tokens inside %d constructs" % (len(SMALL), len(DEFCTX)), SMALL, 4, cs=1)
         run_population(ctx, sq, "len<=4 small alphabet inside constructs")
+        sq = enumerate_seqs(ctx, "len<=5 over %d specifier tokens in %d completing contexts" % (len(SPECS2), len(SPECCTX)), SPECS2, 5, cs=2)
+        run_population(ctx, sq, "len<=5 specifier alphabet, completed")
     else:
+        sq = enumerate_seqs(ctx, "len<=6 over %d specifier tokens in %d completing contexts" % (len(SPECS2), len(SPECCTX)), SPECS2, 6, cs=2)
+        run_population(ctx, sq, "len<=6 specifier alphabet, completed")
         sq = enumerate_seqs(ctx, "len<=5 over %d small tokens inside %d constructs" % (len(SMALL), len(DEFCTX)), SMALL, 5, cs=1)
         run_population(ctx, sq, "len<=5 small alphabet inside constructs")
         sq = enumerate_seqs(ctx, "len<=3 over %d core tokens inside %d constructs" % (len(CORE), len(DEFCTX)), CORE, 3, cs=1)
